@@ -20,8 +20,15 @@ def cumsumFrom (acc : Nat) : List Nat → List Nat
 
 def cumsum (xs : List Nat) : List Nat := cumsumFrom 0 xs
 
-/-- `_batched_arange(count)`: the list of `(batch[k], arange[k])`. -/
+/-- `_batched_arange(count)` exactly as its docstring specifies it:
+    `batch = cat([full((c,), i) for i, c in enumerate(count)])`, `arange = cat([arange(c) for c in count])`,
+    returned as the list of pairs `(batch[k], arange[k])`. -/
 def batchedArange (count : List Nat) : List (Nat × Nat) :=
+  count.zipIdx.flatMap fun (c, i) => (List.range c).map fun a => (i, a)
+
+/-- `_batched_arange(count)` as the code computes it (cumsum pointer, `repeat_interleave`,
+    global `arange` minus `ptr[batch]`).  Compared with `batchedArange` by the driver on every case. -/
+def batchedArangeImpl (count : List Nat) : List (Nat × Nat) :=
   let ptr := 0 :: cumsum count
   let batch := (List.range count.length).flatMap fun i => List.replicate (count.getD i 0) i
   batch.zipIdx.map fun (b, k) => (b, k - ptr.getD b 0)
@@ -62,6 +69,9 @@ def empty (m : MNT α) (dim : Nat) : MNT α :=
     numCols := if dim = 1 then 0 else m.numCols
     values := [], offset := [0] }
 
+/-- cell lengths `offset[1:] - offset[:-1]`. -/
+def counts (m : MNT α) : List Nat := List.zipWith (· - ·) m.offset.tail m.offset.dropLast
+
 def rowNarrow (m : MNT α) (start length : Nat) : MNT α :=
   let C := m.numCols
   let e := start + length
@@ -71,7 +81,9 @@ def rowNarrow (m : MNT α) (start length : Nat) : MNT α :=
     values := pySlice m.values o0 (off.getLastD 0)
     offset := off.map (· - o0) }
 
-def colNarrow (m : MNT α) (start length : Nat) : MNT α :=
+/-- `_col_narrow` exactly as coded (offset matrix from `offset[:-1]` / `offset[1:]`, zero-start
+    re-basing, running `accum`).  Compared with `colNarrow` by the driver on every case. -/
+def colNarrowImpl (m : MNT α) (start length : Nat) : MNT α :=
   let R := m.numRows
   let C := m.numCols
   let e := start + length
@@ -91,8 +103,25 @@ def colNarrow (m : MNT α) (start length : Nat) : MNT α :=
       values := gatherBA m.values os count
       offset := (zs'.map (·.dropLast)).flatten ++ [accum.getLastD 0] }
 
-/-- `_row_index_select` on an already normalised index tensor. -/
-def rowIndexSelect (m : MNT α) (index : List Nat) : MNT α :=
+/-- `_col_narrow`: per row the contiguous value segment of columns `[start, start+length)` is
+    gathered; the new offsets are the running sums of the kept cell lengths. -/
+def colNarrow (m : MNT α) (start length : Nat) : MNT α :=
+  let R := m.numRows
+  let C := m.numCols
+  if R = 0 then
+    { numRows := 0, numCols := length, values := [], offset := m.offset.take 1 }
+  else
+    let os := (List.range R).map fun r => m.offset.getD (r * C + start) 0
+    let count := (List.range R).map fun r =>
+      m.offset.getD (r * C + start + length) 0 - m.offset.getD (r * C + start) 0
+    { numRows := R, numCols := length
+      values := gatherBA m.values os count
+      offset := 0 :: cumsum ((List.range R).flatMap fun r =>
+        pySlice m.counts (r * C + start) (r * C + start + length)) }
+
+/-- `_row_index_select` exactly as coded (two `_batched_arange` passes, `count[-1] += 1`, rolled
+    cumsum).  Compared with `rowIndexSelect` by the driver on every case. -/
+def rowIndexSelectImpl (m : MNT α) (index : List Nat) : MNT α :=
   if index.isEmpty then m.empty 0 else
   let C := m.numCols
   let right := index.map fun i => (i + 1) * C
@@ -105,6 +134,17 @@ def rowIndexSelect (m : MNT α) (index : List Nat) : MNT α :=
     values := gatherBA m.values offL diff
     offset := (batchedArange count).map fun (b, a) =>
       m.offset.getD (left.getD b 0 + a) 0 - offL.getD b 0 + dc.getD b 0 }
+
+/-- `_row_index_select` on an already normalised index tensor: per selected row the contiguous
+    value segment is gathered; the new offsets are the running sums of the selected cell lengths. -/
+def rowIndexSelect (m : MNT α) (index : List Nat) : MNT α :=
+  if index.isEmpty then m.empty 0 else
+  let C := m.numCols
+  let offL := index.map fun i => m.offset.getD (i * C) 0
+  let diff := index.map fun i => m.offset.getD ((i + 1) * C) 0 - m.offset.getD (i * C) 0
+  { numRows := index.length, numCols := C
+    values := gatherBA m.values offL diff
+    offset := 0 :: cumsum (index.flatMap fun i => pySlice m.counts (i * C) (i * C + C)) }
 
 def colIndexSelect (m : MNT α) (index : List Nat) : MNT α :=
   if index.isEmpty then m.empty 1 else
@@ -165,6 +205,36 @@ def select (m : MNT α) (ix : Index) (dim : Nat) : Option (MNT α) :=
   | .list is => (normIndices n is).map fun js => m.indexSelect js dim
   | .mask bs => if bs.length = n then some (m.indexSelect (maskPositions bs) dim) else none
 
+/-! The same dispatch over the literally transcribed `…Impl` primitives (run by the driver
+    next to `select`; the two must agree on every case). -/
+
+def indexSelectImpl (m : MNT α) (index : List Nat) (dim : Nat) : MNT α :=
+  if dim = 0 then m.rowIndexSelectImpl index else m.colIndexSelect index
+
+def narrowImpl (m : MNT α) (dim : Nat) (start : Nat) (length : Int) : MNT α :=
+  let n := m.size dim
+  if start = 0 ∧ (start : Int) + length ≥ n then m
+  else if length ≤ 0 then m.empty dim
+  else if dim = 0 then m.rowNarrow start length.toNat
+  else m.colNarrowImpl start length.toNat
+
+def selectImpl (m : MNT α) (ix : Index) (dim : Nat) : Option (MNT α) :=
+  let n := m.size dim
+  match ix with
+  | .int i => (normIndex n i).map fun j => m.singleIndexSelect j dim
+  | .slice a b s =>
+    let narrowPath : MNT α :=
+      let (s', e) := sliceBounds n a b
+      m.narrowImpl dim s' ((e : Int) - s')
+    match s with
+    | none => some narrowPath
+    | some k =>
+      if k ≤ 0 then none
+      else if k > 1 then some (m.indexSelectImpl (slicePositions n a b k.toNat) dim)
+      else some narrowPath
+  | .list is => (normIndices n is).map fun js => m.indexSelectImpl js dim
+  | .mask bs => if bs.length = n then some (m.indexSelectImpl (maskPositions bs) dim) else none
+
 /-- `m[ix0, ix1]` with at least one non-integer index. -/
 def getitem2 (m : MNT α) (ix0 ix1 : Index) : Option (MNT α) :=
   (m.select ix0 0).bind fun m' => m'.select ix1 1
@@ -204,9 +274,6 @@ def catRows (xs : List (MNT α)) : Option (MNT α) :=
              values := (xs.map (·.values)).flatten
              offset := go 0 xs }
     else none
-
-/-- cell lengths `offset[1:] - offset[:-1]`. -/
-def counts (m : MNT α) : List Nat := List.zipWith (· - ·) m.offset.tail m.offset.dropLast
 
 /-- cell `k` (row-major) read from storage. -/
 def cellAt (m : MNT α) (k : Nat) : List α :=
